@@ -814,10 +814,13 @@ def make_task_func(world: World, tspec: dict) -> Any:
     return body
 
 
+SOURCE_NS: Dict[str, Any] = {}
+
+
 def make_source_task(world: World, tspec: dict) -> Any:
     """Task function compiled from source text (used by C08: real signatures)."""
     ns: Dict[str, Any] = {"__name__": TASKS_MODULE, "world": world, "DELIVERY": DELIVERY}
-    ns.update(world.extra.get("source_ns", {}))
+    ns.update(SOURCE_NS)
     exec(compile(tspec["source"], f"<task {tspec['name']}>", "exec"), ns)  # noqa: S102
     fn = ns[tspec["func"]]
     fn.__module__ = TASKS_MODULE
